@@ -164,7 +164,7 @@ Walk(depth, flag, count) ==
 
 -----------------------------------------------------------------------------
 (* Layer 2: the bounded machine.  Init picks a call (decorator, grid kind, result kind, single / list), the input     *)
-(* grid (a mask, or a number of irregular points) and where needed a geometry; Evaluate is the decorated call (one      *)
+(* grid (a mask, or a number of irregular points) and where needed a geometry; every action is one decorated call (an  *)
 (* atomic step: the library is sequential and the call returns a value).                                               *)
 
 VARIABLES inst, phase, obs
@@ -215,7 +215,8 @@ RelPoints ==
     THEN LET ss == SlimSeq(inst.u, inst.h, inst.w) IN [k \in 1 .. Len(ss) |-> PixelRel(ss[k], inst.h, inst.w, inst.par)]
     ELSE << << inst.par[2], inst.par[3] >> >>
 
-Evaluate ==
+\* one decorated call: the function receives the input coordinates (tags 0 .. n-1) and the decorator builds the result
+Returns ==
     /\ phase = "call"
     /\ phase' = "returned"
     /\ obs' = [ d      |-> Dispatch(inst.api, inst.gk, inst.rk, inst.lst, Iota(NPts), inst.u, inst.h, inst.w),
@@ -227,7 +228,16 @@ Evaluate ==
                       par |-> inst.par, depth |-> inst.depth, flag |-> inst.flag]))
     /\ UNCHANGED inst
 
-Next == Evaluate
+\* one action per public decorator (and one for the usual stack to_array/to_grid o transform o relocate_to_radial_minimum)
+ToArray == inst.api = "to_array" /\ Returns
+ToGrid == inst.api = "to_grid" /\ Returns
+ToVectorYX == inst.api = "to_vector_yx" /\ Returns
+ProjectGrid == inst.api = "project" /\ Returns
+Transform == inst.api = "transform" /\ Returns
+RelocateToRadialMinimum == inst.api = "reloc" /\ Returns
+ProfileStack == inst.api \in {"stack_array", "stack_grid"} /\ Returns
+
+Next == ToArray \/ ToGrid \/ ToVectorYX \/ ProjectGrid \/ Transform \/ RelocateToRadialMinimum \/ ProfileStack
 Spec == Init /\ [][Next]_vars
 
 -----------------------------------------------------------------------------
